@@ -26,9 +26,26 @@ type KVDB struct {
 }
 
 type kvWrite struct {
-	key []*Term
+	key []*Term // key bytes at the time of the call (Badger indexes pending writes by a string copy)
 	val Slice
 	del bool
+	// Badger keeps references to the caller's key and value slices until Commit ("must not
+	// be modified until the end of the transaction"): the bytes that reach the database are
+	// the slices' contents at commit time.
+	keyRef Slice
+	valRef Slice
+}
+
+// cur returns the write as Badger will see it now: the current contents of the referenced slices.
+func (w *kvWrite) cur() (key []*Term, val Slice) {
+	key, val = w.key, w.val
+	if w.keyRef != nil {
+		key = sliceTerms(w.keyRef)
+	}
+	if w.valRef != nil {
+		val = cloneSlice(w.valRef)
+	}
+	return
 }
 
 type KVTxn struct {
@@ -90,9 +107,10 @@ func (p *Path) hasPrefix(k, pre []*Term) *Term {
 func (p *Path) kvView(t *KVTxn) []*kvEnt {
 	out := append([]*kvEnt{}, t.base...)
 	for _, w := range t.writes {
+		wkey, wval := w.cur()
 		idx := -1
 		for i, e := range out {
-			if p.branch(p.keyEq(e.key, w.key)) {
+			if p.branch(p.keyEq(e.key, wkey)) {
 				idx = i
 				break
 			}
@@ -102,9 +120,9 @@ func (p *Path) kvView(t *KVTxn) []*kvEnt {
 			out = append(out[:idx:idx], out[idx+1:]...)
 		case w.del:
 		case idx >= 0:
-			out[idx] = &kvEnt{w.key, w.val}
+			out[idx] = &kvEnt{wkey, wval}
 		default:
-			out = append(out, &kvEnt{w.key, w.val})
+			out = append(out, &kvEnt{wkey, wval})
 		}
 	}
 	return out
@@ -114,10 +132,14 @@ func (p *Path) kvGet(t *KVTxn, key []*Term) *kvEnt {
 	for i := len(t.writes) - 1; i >= 0; i-- {
 		w := t.writes[i]
 		if p.branch(p.keyEq(w.key, key)) {
+			wkey, wval := w.cur()
+			if w.keyRef != nil && !p.branch(p.keyEq(wkey, key)) {
+				break // the entry's key slice was modified after Set: Badger falls through to the database
+			}
 			if w.del {
 				return nil
 			}
-			return &kvEnt{w.key, w.val}
+			return &kvEnt{wkey, wval}
 		}
 	}
 	for _, e := range t.base {
@@ -139,9 +161,10 @@ func (p *Path) kvCommit(t *KVTxn) {
 	db := t.db
 	ents := append([]*kvEnt{}, db.entries...)
 	for _, w := range t.writes {
+		wkey, wval := w.cur()
 		idx := -1
 		for i, e := range ents {
-			if p.branch(p.keyEq(e.key, w.key)) {
+			if p.branch(p.keyEq(e.key, wkey)) {
 				idx = i
 				break
 			}
@@ -151,9 +174,9 @@ func (p *Path) kvCommit(t *KVTxn) {
 			ents = append(ents[:idx:idx], ents[idx+1:]...)
 		case w.del:
 		case idx >= 0:
-			ents[idx] = &kvEnt{w.key, w.val}
+			ents[idx] = &kvEnt{wkey, wval}
 		default:
-			ents = append(ents, &kvEnt{w.key, w.val})
+			ents = append(ents, &kvEnt{wkey, wval})
 		}
 	}
 	db.entries = ents
@@ -281,7 +304,9 @@ func registerKVIntrinsics() {
 			if len(key) == 0 {
 				return p.badgerErr("ErrEmptyKey")
 			}
-			t.writes = append(t.writes, &kvWrite{key: key, val: cloneSlice(a[2])})
+			kr, _ := a[1].(Slice)
+			vr, _ := a[2].(Slice)
+			t.writes = append(t.writes, &kvWrite{key: key, val: cloneSlice(a[2]), keyRef: kr, valRef: vr})
 			return Iface{}
 		},
 		tx + "SetEntry": func(p *Path, _ *ssa.Function, a []Value) Value {
@@ -298,7 +323,8 @@ func registerKVIntrinsics() {
 			if !t.update {
 				return p.badgerErr("ErrReadOnlyTxn")
 			}
-			t.writes = append(t.writes, &kvWrite{key: sliceTerms(a[1]), del: true})
+			kr, _ := a[1].(Slice)
+			t.writes = append(t.writes, &kvWrite{key: sliceTerms(a[1]), del: true, keyRef: kr})
 			return Iface{}
 		},
 		tx + "Commit": func(p *Path, _ *ssa.Function, a []Value) Value {
